@@ -7,6 +7,8 @@ package sx
 import (
 	"go/token"
 	"go/types"
+	"sort"
+	"strings"
 
 	"golang.org/x/tools/go/ssa"
 )
@@ -41,22 +43,39 @@ type Query struct {
 	BlockNode func(Node) bool
 	// BlockEdge, when it returns true, removes a block-level edge.
 	BlockEdge func(Edge) bool
+	// CondClass optionally classifies branch conditions for path-sensitive
+	// search: it returns a class id ("" = unclassified) and whether the
+	// If's true edge means "class value is true".
+	CondClass func(*ssa.If) (string, bool)
+	// InitAssign is the initial assignment of condition classes
+	// ("id=1;id2=0", sorted), normally empty.
+	InitAssign string
 }
 
 // Reach reports whether some path leads from the point just *after* `from`
 // (or from the very start of block `from.B` when from.I < 0) to any node for
 // which target returns true. Blocked nodes are never entered. The target test
 // is applied before the blocked test, so a node may be both.
+//
+// When q.CondClass is set the search is path-sensitive on the branch
+// conditions it classifies: two If instructions of the same class are assumed
+// to evaluate identically along one path (used for conditions that re-load
+// the same immutable value, which go/ssa does not CSE).
 func Reach(from Node, target func(Node) bool, q Query) (Node, bool) {
 	type st struct {
-		b *ssa.BasicBlock
-		i int
+		b   *ssa.BasicBlock
+		i   int
+		asg string
 	}
-	seen := map[*ssa.BasicBlock]bool{}
+	type key struct {
+		b   *ssa.BasicBlock
+		asg string
+	}
+	seen := map[key]bool{}
 	var work []st
-	work = append(work, st{from.B, from.I + 1})
+	work = append(work, st{from.B, from.I + 1, q.InitAssign})
 	if from.I+1 == 0 {
-		seen[from.B] = true
+		seen[key{from.B, q.InitAssign}] = true
 	}
 	for len(work) > 0 {
 		s := work[len(work)-1]
@@ -75,17 +94,72 @@ func Reach(from Node, target func(Node) bool, q Query) (Node, bool) {
 		if blocked {
 			continue
 		}
-		for _, succ := range s.b.Succs {
+		succs := s.b.Succs
+		asgT, asgF := s.asg, s.asg
+		allowT, allowF := true, true
+		if q.CondClass != nil && len(succs) == 2 {
+			if ifi, ok := s.b.Instrs[len(s.b.Instrs)-1].(*ssa.If); ok {
+				if id, pos := q.CondClass(ifi); id != "" {
+					// value of the class on the true edge is `pos`
+					tv, fv := "1", "0"
+					if !pos {
+						tv, fv = "0", "1"
+					}
+					if cur, ok := lookupAssign(s.asg, id); ok {
+						allowT = cur == tv
+						allowF = cur == fv
+					} else {
+						asgT = addAssign(s.asg, id, tv)
+						asgF = addAssign(s.asg, id, fv)
+					}
+				}
+			}
+		}
+		for k, succ := range succs {
 			if q.BlockEdge != nil && q.BlockEdge(Edge{s.b, succ}) {
 				continue
 			}
-			if !seen[succ] {
-				seen[succ] = true
-				work = append(work, st{succ, 0})
+			asg := s.asg
+			if len(succs) == 2 {
+				if k == 0 {
+					if !allowT {
+						continue
+					}
+					asg = asgT
+				} else {
+					if !allowF {
+						continue
+					}
+					asg = asgF
+				}
+			}
+			kk := key{succ, asg}
+			if !seen[kk] {
+				seen[kk] = true
+				work = append(work, st{succ, 0, asg})
 			}
 		}
 	}
 	return Node{}, false
+}
+
+func lookupAssign(asg, id string) (string, bool) {
+	for _, kv := range strings.Split(asg, ";") {
+		if strings.HasPrefix(kv, id+"=") {
+			return kv[len(id)+1:], true
+		}
+	}
+	return "", false
+}
+
+func addAssign(asg, id, v string) string {
+	parts := []string{}
+	if asg != "" {
+		parts = strings.Split(asg, ";")
+	}
+	parts = append(parts, id+"="+v)
+	sort.Strings(parts)
+	return strings.Join(parts, ";")
 }
 
 // Entry is the pseudo node "before the first instruction of fn".
